@@ -91,6 +91,15 @@ func genC02(seed uint64, tier string) *plan.Plan {
 			}
 		}
 	}
+	if !udp && r.IntN(3) == 0 {
+		// a slow collector: small receive window, stall periods, and a short connection-check
+		// interval so that the check fires while a write is blocked
+		pl.Cfg["window"] = []int64{512, 2048, 8192, 32768}[r.IntN(4)]
+		pl.Cfg["check_ms"] = []int64{1, 3, 10, 50}[r.IntN(4)]
+		for i := 1 + r.IntN(3); i > 0; i-- {
+			pl.Ops = append(pl.Ops, plan.Op{K: "peerstall", A: int64(r.IntN(400)), B: int64(5 + r.IntN(300))})
+		}
+	}
 	genSchedule(r, pl, 2, 60*len(pl.Ops))
 	return pl
 }
